@@ -170,7 +170,7 @@ func repoSite(stack string) string {
 			fn := ""
 			if i > 0 {
 				fn = strings.TrimSpace(lines[i-1])
-				if p := strings.Index(fn, "("); p > 0 {
+				if p := strings.LastIndex(fn, "("); p > 0 {
 					fn = fn[:p]
 				}
 				if p := strings.LastIndex(fn, "/"); p >= 0 {
